@@ -31,7 +31,7 @@ func (*c20) ID() string                     { return "C20" }
 func (*c20) Level() string                  { return "fault_enumeration" }
 func (*c20) Decode(raw []byte) (any, error) { return decodeInto[SendScenario](raw) }
 
-var c20Forms = []string{"plain", "enh", "late-triple", "multiline", "enh-bare", "multiline-bare-first"}
+var c20Forms = []string{"plain", "enh", "late-triple", "multiline", "enh-bare", "multiline-bare-first", "enh-crossclass"}
 var c20Pos = []string{"MAIL", "RCPT", "DATA", "EOD", "RSET"}
 
 func c20Action(code int, form string) refsmtpd.Action {
@@ -39,6 +39,10 @@ func c20Action(code int, form string) refsmtpd.Action {
 	switch form {
 	case "enh":
 		return refsmtpd.Action{Code: code, Enh: fmt.Sprintf("%d.%d.%d", cls, 1+code%7, code%10), Text: "request refused by policy"}
+	case "enh-crossclass":
+		// the class of the enhanced code contradicts the reply code (seen from servers that
+		// pass on a code of their own back end): the reply code decides what the reply is
+		return refsmtpd.Action{Code: code, Enh: fmt.Sprintf("%d.%d.%d", 9-cls, 1+code%7, code%10), Text: "verdict passed on from the back end"}
 	case "late-triple":
 		return refsmtpd.Action{Code: code, Text: fmt.Sprintf("refused: client [10.%d.7.1] is listed, see rule 2.0.1", cls)}
 	case "enh-bare":
@@ -502,7 +506,7 @@ func (p *c20) Shrink(scAny any) []any {
 
 func (p *c20) Info() PropInfo {
 	return PropInfo{
-		Rule: "enumeration: reply code 400..599 (all 200) x text form {plain, enhanced code at start, enhanced-code-like triple later in the text (an IP address), multi-line, enhanced code and nothing else, multi-line whose first line is the bare enhanced code} x position {MAIL, a RCPT, DATA, end-of-data, RSET} x ENHANCEDSTATUSCODES advertised or not, each in a batch of 1..3 messages x 1..3 recipients (a quarter with local parts that need quoting on the wire) drawn from the seed, DialAndSend runs partly with a refused or lost QUIT; plus sampled scenarios with several rejected recipients carrying different codes; non-trivial = at least one message was refused; distinct = distinct (label, batch size, failing steps and codes)",
+		Rule: "enumeration: reply code 400..599 (all 200) x text form {plain, enhanced code at start, enhanced-code-like triple later in the text (an IP address), multi-line, enhanced code and nothing else, multi-line whose first line is the bare enhanced code, enhanced code whose class contradicts the reply code (550 4.x.x, 451 5.x.x)} x position {MAIL, a RCPT, DATA, end-of-data, RSET} x ENHANCEDSTATUSCODES advertised or not, each in a batch of 1..3 messages x 1..3 recipients (a quarter with local parts that need quoting on the wire) drawn from the seed, DialAndSend runs partly with a refused or lost QUIT; plus sampled scenarios with several rejected recipients carrying different codes; non-trivial = at least one message was refused; distinct = distinct (label, batch size, failing steps and codes)",
 		Assumptions: []string{"NOOP is always accepted (not a position of the property)", "the rejected-recipient list is read from SendError.Error() because the type has no accessor for it",
 			"messages that follow a message after which the dialogue became illegal (C04's subject) are not judged for 'unaffected'"},
 		Real:        []string{"go-mail Client.Send/DialAndSend, SendError, smtp.Client", "net/textproto"},
